@@ -219,7 +219,10 @@ def run(run):
     rng = rng_for(run.seed, "c12", shard)
     nfam = 220 if run.tier == "quick" else 900
     ninputs = 7 if run.tier == "quick" else 9
-    profile = {"p_move": 0.2, "kinds": {"int": 34, "data": 24, "bits": 8, "ref": 18, "sel": 8, "em": 2}, "p_rep": 0.22}
+    # regex delimiters not kept in the value are left out: with known finding F2 the bytes such a field emits depend on
+    # what the class parsed before, which would shift the pack-phase offsets judged here
+    profile = {"p_move": 0.2, "kinds": {"int": 34, "data": 24, "bits": 8, "ref": 18, "sel": 8, "em": 2}, "p_rep": 0.22,
+               "allow_regex_nokeep_single": False}
     if run.tier == "thorough":
         profile["max_depth"] = 4
     sampled = 0
